@@ -356,3 +356,35 @@ for sid, (prop, what, needs, flags, caught, note) in M6.items():
     }
     json.dump(meta, open(os.path.join(d, 'meta.json'), 'w'), indent=1)
 print(len(M6), 'round-6 meta files written')
+
+M7 = {
+ 'C09M': ('C09', 'BigInt::assign_from_slice recomputes the sign only when the requested sign differs', 'needs a non-zero receiver re-assigned with the same sign from a slice denoting zero', '', ['C09'], ''),
+ 'C09N': ('C09', 'U32Digits::last peeks instead of calling next_back', 'needs an odd number of u32 digits, the iterator drained from the front, then last()', '', ['C09'], ''),
+ 'C10M': ('C10', 'i64 / BigInt returns 0 when the divisor has more than 63 bits', 'needs the scalar exactly i64::MIN and the divisor exactly +-2^63', '', ['C10'], ''),
+ 'C10N': ('C10', 'BigInt += u64/u128 in-place fast path for negative multi-digit values', 'needs += with a u128 above u64::MAX and a negative two-digit value of magnitude <= the scalar', '', ['C10'], ''),
+ 'C11M': ('C11', 'BigInt::nth_root word-sized fast path casts the root to i64', 'needs degree 1 and 2^63 <= |x| < 2^64', '', ['C11'], ''),
+ 'C11N': ('C11', 'sqrt descent stops after a unit step', 'needs x = (r+1)^2 - 1 with r >= 2^53 and an f64 guess of r+2', '', ['C11'], ''),
+ 'C15M': ('C15', 'gen_biguint no longer zeroes its buffer (with_capacity + set_len)', 'needs rand, bits mod 64 in 1..=32 and a recycled non-zero heap block: uninitialised memory in the value', '--features rand', ['C15'], 'reported by valgrind memcheck (use of uninitialised value); the guard allocator hands out zero pages and cannot see it'),
+ 'C15N': ('C15', 'BigInt::to_str_radix maps digits with a branchless formula wrong for digits >= 20', 'needs radix >= 21: invalid UTF-8 through from_utf8_unchecked', '', ['C15'], ''),
+ 'C17M': ('C17', 'declared sequence length computed as bits()/32 + 1', 'needs a bit length that is a multiple of 32', '--features serde', ['C17'], ''),
+ 'C17N': ('C17', 'visitor trusts an odd size hint to detect the tail', 'needs a SeqAccess whose hint is odd and smaller than the element count', '--features serde', ['C17'], ''),
+ 'C18M': ('C18', 'sample_single_inclusive override widens the upper end on the magnitude', 'needs gen_range(low..=high) on BigInt with a negative upper end', '--features rand', ['C18'], ''),
+ 'C18N': ('C18', 'gen_biguint_below compares candidate and bound by digit count and leading digit only', 'needs a multi-digit bound and a candidate sharing its leading digit', '--features rand', ['C18'], ''),
+ 'C19M': ('C19', 'abs_sub returns self when the subtrahend is zero', 'needs a negative x and y = 0', '', ['C19'], ''),
+ 'C19N': ('C19', 'BigUint::set_one overwrites the low digit in place, no arm for an empty vector', 'needs set_one on a zero receiver', '', ['C19'], ''),
+ 'C20M': ('C20', 'one of the five Toom-3 sub-products done by long multiplication', 'needs operands above 256 digits: doubling ratio 3.6-3.9', 'RUSTFLAGS="--cfg num_bigint_verif"', ['C20'], ''),
+ 'C20N': ('C20', 'Karatsuba middle product by long multiplication in the Minus arm', 'needs halves ordered oppositely in the two factors', 'RUSTFLAGS="--cfg num_bigint_verif"', ['C20'], 'caught at 1024 -> 2048 digits with ratio 3.165 (limit 3.1) on the dense operands; rising x falling digit patterns from 256 digits added for margin'),
+}
+for sid, (prop, what, needs, flags, caught, note) in M7.items():
+    d = os.path.join(V, 'seeded', sid)
+    if not os.path.isdir(d):
+        continue
+    meta = {
+        'id': sid, 'round': 7, 'breaks_property': prop, 'change': what, 'needs_to_manifest': needs,
+        'origin': 'fresh seventh-round sub-agent (reduced round: 8 properties) given the property text, its own scratch worktree and the list of earlier ideas to avoid (nothing from /verif)',
+        'confirmed_by_me': {'how': 'tools/confirm_seed.sh %s %s' % (sid, flags), 'result': 'clean_demo=PASS suite_with_patch=PASS demo_with_patch=FAIL'},
+        'demo_flags': flags, 'detected_by_quick_checks': caught, 'note': note,
+        'how_run_against_checks': 'tools/trymut.sh %s seeded/%s/patch.diff quick %s' % (sid, sid, ' '.join(caught)),
+    }
+    json.dump(meta, open(os.path.join(d, 'meta.json'), 'w'), indent=1)
+print(len(M7), 'round-7 meta files written')
